@@ -32,7 +32,7 @@ RULE = ('Hypothesis-generated base histories (dispatch / disable / enable / add_
         'registered then, an injected exception leaves the assignment as the same object, and every enabling '
         'assignment stays within a deterministic budget of executed lines. evaluations = base histories, '
         'implementation_executions = runs incl. fault positions. '
-        'Handlers may be forgotten by the program (garbage-collected while events are pending) and replaced by new handler objects; a callback may disable dispatching and dispatch a further event. '
+        'In half of the cases a SECOND dispatcher (same kind) lives next to the one under test, with one listener of all four names and events of its own at every step - disabled throughout and enabled at the end, enabled throughout, or enabled-and-disabled again every fourth step: it delivers exactly its own occurrences once, in order, and nothing of it shows in the dispatcher under test. Handlers may be forgotten by the program (garbage-collected while events are pending) and replaced by new handler objects, registered later or at once; a callback may disable dispatching and dispatch a further event. '
         'Non-trivial = a base history with a release of '
         '>= 2 pending occurrences and (>= 2 listeners for one of them or >= 2 fault positions inside a release). '
         'Distinct = sha1 of the canonical JSON of the base history.')
@@ -79,7 +79,7 @@ def decode_op(t):
     kind = ('dispatch', 'dispatch', 'dispatch', 'dispatch', 'dispatch', 'dispatch', 'disable', 'disable', 'enable',
             'enable', 'add', 'add', 'remove', 'spawn', 'forget', 'forget')[sel % 16]
     if kind == 'forget':
-        return ['forget', p % 4]
+        return ['forget', p % 4, p // 4 % 2]
     if kind == 'spawn':
         return ['spawn', p % 3]
     if kind == 'dispatch':
@@ -97,7 +97,10 @@ def strategy():
         'reg': st.integers(0, 15),
         'ops': worldops.chunked(op, 30),
         # scale: 0, or how many times every dispatch issued while dispatching is disabled is repeated (long backlogs)
-        'amp': worldops.size_amp(none=40)})
+        'amp': worldops.size_amp(none=40),
+        # a second dispatcher living next to the one under test: 0 none, 1 disabled throughout (own backlog, enabled
+        # at the very end), 2 enabled throughout, 3 disabled but enabled-and-disabled-again every few steps
+        'other': st.integers(0, 5).map(lambda v: v if v <= 3 else 0)})
 
 
 def _make_cb(ev):
@@ -119,6 +122,44 @@ def make_handler(run, ix, mask):
     h.ix = ix
     h.evs = set(evs)
     return h
+
+
+class OtherTok:
+    """argument of the events dispatched through the neighbouring dispatcher"""
+    def __init__(self, n, ev):
+        self.n, self.ev = n, ev
+
+    def __repr__(self):
+        return 'OtherTok(%d,%s)' % (self.n, self.ev)
+
+
+class Witness:
+    """the one listener of the neighbouring dispatcher (all four event names)"""
+    __events__ = {e: e for e in EVENTS}
+
+    def __init__(self, run):
+        self._run = run
+        self.got = []
+
+    def _cb(self, ev, tok):
+        if not isinstance(tok, OtherTok) or tok.ev != ev:
+            self._run.viol('neighbouring_dispatcher_delivered_an_occurrence_that_is_not_its_own', event=ev,
+                           argument=repr(tok))
+        if not self._run.other_enabled:
+            self._run.viol('neighbouring_dispatcher_ran_a_callback_while_disabled', argument=repr(tok))
+        self.got.append(tok.n)
+
+    def a(self, tok):
+        self._cb('a', tok)
+
+    def b(self, tok):
+        self._cb('b', tok)
+
+    def c(self, tok):
+        self._cb('c', tok)
+
+    def d(self, tok):
+        self._cb('d', tok)
 
 
 class SpawnComp:
@@ -169,6 +210,9 @@ class Execution:
 
     # ---- callbacks ----------------------------------------------------------------------------------
     def on_cb(self, h, ev, tok):
+        if isinstance(tok, OtherTok):
+            self.viol('occurrence_dispatched_through_another_dispatcher_was_delivered_here', handler=h.ix,
+                      argument=repr(tok))
         token = tok.n if isinstance(tok, Tok) else None
         k = self.deliveries
         self.deliveries += 1
@@ -410,7 +454,7 @@ class Execution:
         self.guarded(lambda: self.d.remove_handler(self.handlers[hix]), 'remove_handler')
         self.registered.discard(hix)
 
-    def op_forget(self, sel):
+    def op_forget(self, sel, again=0):
         """the program drops its last reference to a handler (nobody calls remove_handler): the dispatcher held it
         weakly, it is gone - a NEW handler object listening to the same events takes its slot and may be
         registered later; what is pending then reaches it like any handler registered at delivery time"""
@@ -431,6 +475,11 @@ class Execution:
             self.flags['registered_handler_garbage_collected'] += 1
             if self.incomplete:
                 self.flags['handler_collected_while_events_pending'] += 1
+            if again:
+                # the program registers the new object at once (a hot-reloaded listener): whatever is pending reaches
+                # it when dispatching is enabled again
+                self.op_add(slot)
+                self.flags['collected_handler_replaced_at_once'] += 1
 
     def run(self):
         self.d = desper.World() if self.case['kind'] else desper.EventDispatcher()
@@ -446,12 +495,67 @@ class Execution:
         for i in range(self.nfixed):
             if self.case['reg'] >> i & 1:
                 self.op_add(i)
+        self.other_mode = self.case.get('other', 0)
+        if self.other_mode:
+            # every dispatcher has a backlog of its own: what happens to this one never shows in its neighbour
+            self.other = desper.World() if self.case['kind'] else desper.EventDispatcher()
+            self.witness = Witness(self)
+            self.other.add_handler(self.witness)
+            self.other_sent = []
+            self.other_enabled = self.other_mode == 2
+            self.other.dispatch_enabled = self.other_enabled
+            self.flags['neighbouring_dispatcher'] += 1
         ops = self.case['ops'] + CLOSING
         for self.step_ix, op in enumerate(ops):
+            if self.other_mode:
+                self.neighbour_step()
             getattr(self, 'op_' + op[0])(*op[1:])
         if not self.d.dispatch_enabled:
             self.viol('dispatcher_not_enabled_after_closing_enable')
+        if self.other_mode:
+            self.neighbour_enable()
+            if self.flags['neighbour_released_a_backlog'] and (self.queued or self.flags['fault_fired']):
+                self.flags['neighbour_backlog_beside_a_backlog_here'] += 1
         return self
+
+    def neighbour_step(self):
+        if self.other_mode == 3 and self.step_ix % 4 == 3:
+            self.neighbour_enable()
+            self.other.dispatch_enabled = False
+            self.other_enabled = False
+        n = len(self.other_sent)
+        ev = EVENTS[(n + self.step_ix) % 4]
+        self.other_sent.append(n)
+        try:
+            self.other.dispatch(ev, OtherTok(n, ev))
+        except PropertyViolation:
+            raise
+        except Exception as exc:
+            self.viol('dispatch_on_the_neighbouring_dispatcher_raised', exception=repr(exc))
+        self.neighbour_verdict('a dispatch on it')
+
+    def neighbour_enable(self):
+        was = self.other_enabled
+        self.other_enabled = True
+        pending = len(self.other_sent) - len(self.witness.got)
+        try:
+            self.other.dispatch_enabled = True
+        except PropertyViolation:
+            raise
+        except Exception as exc:
+            self.viol('enabling_the_neighbouring_dispatcher_raised', exception=repr(exc))
+        if not was and pending:
+            self.flags['neighbour_released_a_backlog'] += 1
+        self.neighbour_verdict('enabling it')
+
+    def neighbour_verdict(self, after):
+        want = self.other_sent if self.other_enabled else self.other_sent[:len(self.witness.got)]
+        if self.witness.got != want or (self.other_enabled and len(want) != len(self.other_sent)):
+            self.viol('neighbouring_dispatcher_does_not_deliver_exactly_its_own_occurrences_once_in_order',
+                      after=after, enabled=self.other_enabled, got=self.witness.got[-8:],
+                      dispatched=self.other_sent[-8:])
+        if not self.other_enabled and self.other_mode == 1 and self.witness.got:
+            self.viol('neighbouring_dispatcher_ran_a_callback_while_disabled', got=self.witness.got[-8:])
 
 
 def run_case(case):
